@@ -47,9 +47,11 @@ CasesN(N) ==
   \*      the caller gets the PRIMARY method's result on both paths
   \* ostr: NullServer(ostr=True) - the direct caller gets the serialized response; the (lazily produced) result is serialized
   \*      while the context is still open, as over the wire
-  { c \in [style : Styles, ret : Rets, modes : UNION {[1..n -> Modes] : n \in 0..N}, rename : BOOLEAN, dflt : BOOLEAN, aux : BOOLEAN, ostr : BOOLEAN] :
+  { c \in [style : Styles, ret : Rets, modes : UNION {[1..n -> Modes] : n \in 0..N}, rename : BOOLEAN, dflt : BOOLEAN, aux : BOOLEAN, narrow : BOOLEAN, ostr : BOOLEAN] :
       /\ (c.aux => (c.style = "wrapped" /\ ~c.rename /\ ~c.dflt /\ ~c.ostr /\ c.ret \in {"one", "two", "none", "fault"}
                      /\ \A i \in 1..Len(c.modes) : c.modes[i] \in {"pos", "kw", "absent"}))
+      \* narrow: the auxiliary twin declares only the FIRST parameter of the primary method (it picks what it knows, on both paths)
+      /\ (c.narrow => c.aux /\ Len(c.modes) >= 2)
       /\ (c.ostr => (c.style = "wrapped" /\ ~c.rename /\ ~c.dflt /\ c.ret \in {"gen", "one", "two"}
                       /\ \A i \in 1..Len(c.modes) : c.modes[i] \in {"pos", "kw"}))
       /\ (c.dflt => (c.style = "wrapped" /\ ~c.rename /\ c.ret \in {"one", "none"} /\ Len(c.modes) >= 1
@@ -102,10 +104,12 @@ ResultWire(c, o)   == o.wres[1] = WireResult(c)[1] /\ o.wres = WireResult(c)
 SameAsWire(c, o)  == IF Ign(c) THEN o.dres[1] = "ignored" /\ o.wres = <<"value", <<>>>>
                      ELSE o.dres[1] = o.wres[1] /\ o.dres = o.wres      \* (tags first: the payloads of different tags are of different sorts)
 OnceEach(c, o)    == o.dcalls = 1 /\ o.wcalls = 1
-ClauseNames == {"ArgsDirect", "ArgsWire", "ResultDirect", "ResultWire", "SameAsWire", "OnceEach"}
+\* the auxiliary twin runs on the side as often - and with the same first argument - on both paths
+AuxAlike(c, o)    == c.aux => o.daux = o.waux
+ClauseNames == {"ArgsDirect", "ArgsWire", "ResultDirect", "ResultWire", "SameAsWire", "OnceEach", "AuxAlike"}
 Holds(n, c, o) == CASE n = "ArgsDirect" -> ArgsDirect(c, o) [] n = "ArgsWire" -> ArgsWire(c, o)
                     [] n = "ResultDirect" -> ResultDirect(c, o) [] n = "ResultWire" -> ResultWire(c, o)
-                    [] n = "SameAsWire" -> SameAsWire(c, o) [] n = "OnceEach" -> OnceEach(c, o)
+                    [] n = "SameAsWire" -> SameAsWire(c, o) [] n = "OnceEach" -> OnceEach(c, o) [] n = "AuxAlike" -> AuxAlike(c, o)
 \* the table's own law: whatever the mode, direct and wire expectations agree
 TableLaw == \A c \in Cases : ~Ign(c) => NullResult(c) = WireResult(c)
 
